@@ -183,7 +183,7 @@ PesPkts(p, cc, len, h, a) ==
       first == [pid |-> p, cc |-> c1, pl |-> TRUE, pusi |-> TRUE, af |-> 184 - n1, n |-> n1, kind |-> "pes", ver |-> 0]
       \* ideal for an oversize AF: an adaptation-only packet (counter not advanced) carries it
       afonly == IF big /\ ~HasDev("CCBurnOnBigAF")
-                THEN <<[pid |-> p, cc |-> (IF cc = 16 THEN 0 ELSE cc), pl |-> FALSE, pusi |-> FALSE, af |-> 184, n |-> 0, kind |-> "pes", ver |-> 0]>>
+                THEN <<[pid |-> p, cc |-> (IF cc = 16 THEN 15 ELSE cc), pl |-> FALSE, pusi |-> FALSE, af |-> 184, n |-> 0, kind |-> "pes", ver |-> 0]>>
                 ELSE <<>>
   IN afonly \o <<first>> \o Rest(p, c1, len - data1)
 
